@@ -201,16 +201,22 @@ def check(case):
                     state, tokens = {}, []
                     for kbar in range(len(tracks_bars[0])):
                         tokens.extend(tok.tokenise([tracks_bars[i][kbar].copy().sequence for i in range(len(pool))], state_dict=state))
+                    if not _tokens_ok(out, tokens, name):
+                        return out
                     new_pool = tok.detokenise(tokens)
                 pool = new_pool
             elif name == "tokenise":
                 tok = Tokeniser(num_tracks=len(pool), velocity_bins=[1, 2, 8, 15][a % 4], flag_fuse_value=flag,
                                 flag_fuse_velocity=bool(a % 2), flag_fuse_track=bool(b % 2), pitch_range=(21, 108),
+                                # the tokeniser's own resolution: default, or explicit (also with default step sizes / note values)
+                                ppqn=[None, None, 48, 24, 96, 120][(a + 2 * b) % 6],
                                 step_sizes=None if r % 3 else util.get_default_step_sizes(a % 2, 1 + b % 2))
                 srcs = [x.copy() for x in pool]
                 for x in srcs:
                     x.quantise_and_normalise()
                 tokens = tok.tokenise(srcs)
+                if not _tokens_ok(out, tokens, name):       # (before detokenise: a float spelling makes detokenise itself raise)
+                    return out
                 pool = tok.detokenise(tokens)
         except Exception as e:
             out.inconclusive = f"stage-raised:{name}:{type(e).__name__}"
